@@ -8,6 +8,9 @@ import (
 	"net/http"
 	"sync"
 
+	"bytes"
+
+	"github.com/imroc/req/v3/internal/transport"
 	"github.com/quic-go/qpack"
 	"github.com/quic-go/quic-go"
 )
@@ -100,7 +103,9 @@ func VerifParseHeaders(fields []qpack.HeaderField, isRequest bool) (VerifHeader,
 }
 
 // VerifParseTrailers runs parseTrailers.
-func VerifParseTrailers(fields []qpack.HeaderField) (http.Header, error) { return parseTrailers(fields) }
+func VerifParseTrailers(fields []qpack.HeaderField) (http.Header, error) {
+	return parseTrailers(fields)
+}
 
 // VerifUpdateResponseFromHeaders runs updateResponseFromHeaders on a fresh response.
 func VerifUpdateResponseFromHeaders(fields []qpack.HeaderField) (*http.Response, error) {
@@ -148,4 +153,51 @@ func VerifNewRequestWriter() *VerifRequestWriter { return &VerifRequestWriter{w:
 // wr standing for the stream.
 func (v *VerifRequestWriter) WriteHeaders(wr io.Writer, req *http.Request, gzip bool) error {
 	return v.w.writeHeaders(wr, req, gzip, nil)
+}
+
+// VerifResponseConn is one HTTP/3 connection as the response side sees it: one stub
+// quic.Connection (recording CloseWithError) and the connection's ONE qpack.Decoder, shared by
+// the responses of all its requests.
+type VerifResponseConn struct {
+	qc   *verifConn
+	conn *connection
+}
+
+func VerifNewResponseConn() *VerifResponseConn {
+	qc := &verifConn{closed: -1}
+	c := newConnection(context.Background(), qc, false, PerspectiveClient, 0, &transport.Options{})
+	return &VerifResponseConn{qc: qc, conn: c}
+}
+
+// Closed returns the application error code the connection was closed with, -1 if it is open.
+func (v *VerifResponseConn) Closed() int64 {
+	v.qc.mu.Lock()
+	defer v.qc.mu.Unlock()
+	return v.qc.closed
+}
+
+type verifStream struct {
+	quic.Stream
+	r           *bytes.Reader
+	id          quic.StreamID
+	cancelRead  int64
+	cancelWrite int64
+}
+
+func (s *verifStream) Read(p []byte) (int, error)         { return s.r.Read(p) }
+func (s *verifStream) CancelRead(c quic.StreamErrorCode)  { s.cancelRead = int64(c) }
+func (s *verifStream) CancelWrite(c quic.StreamErrorCode) { s.cancelWrite = int64(c) }
+func (s *verifStream) StreamID() quic.StreamID            { return s.id }
+func (s *verifStream) Context() context.Context           { return context.Background() }
+func (s *verifStream) Close() error                       { return nil }
+
+// ReadResponse runs requestStream.ReadResponse for a request of this connection whose stream
+// delivers wire (HEADERS frame, field section, ...) and then ends.  cancelled is the stream error
+// code the request stream was reset with (-1: not reset).
+func (v *VerifResponseConn) ReadResponse(streamID int64, wire []byte) (rsp *http.Response, cancelled int64, err error) {
+	qs := &verifStream{r: bytes.NewReader(wire), id: quic.StreamID(streamID), cancelRead: -1, cancelWrite: -1}
+	str := newStream(qs, v.conn, nil, func(io.Reader, uint64) error { return nil })
+	rs := newRequestStream(context.Background(), v.conn.Options, str, newRequestWriter(), make(chan struct{}, 1), v.conn.decoder, true, 1<<20, &http.Response{})
+	rsp, err = rs.ReadResponse()
+	return rsp, qs.cancelRead, err
 }
